@@ -119,6 +119,27 @@ func init() {
 		}
 		fmt.Fprintf(&sb, "/-- methods `scionPacketProcessor.process` calls on its receiver, in source order -/\ndef processCalls : List String := %s\n",
 			LeanStrList(r1Calls(c, proc, "p")))
+		rs, err := fn("reset")
+		if err != nil {
+			return err
+		}
+		var assigns []string
+		for _, st := range rs.Body.List {
+			if a, ok := st.(*ast.AssignStmt); ok {
+				assigns = append(assigns, c.Expr(a))
+			}
+		}
+		fmt.Fprintf(&sb, "/-- assignments of `scionPacketProcessor.reset` (per-packet state cleared before each packet) -/\ndef resetAssigns : List String := %s\n",
+			LeanStrList(assigns))
+		pp, err := fn("processPkt")
+		if err != nil {
+			return err
+		}
+		first := ""
+		if len(pp.Body.List) > 0 {
+			first = c.Expr(pp.Body.List[0])
+		}
+		fmt.Fprintf(&sb, "/-- first statement of `processPkt` -/\ndef processPktFirst : String := %q\n", first)
 		checks := []string{"validateHopExpiry", "validateIngressID", "validatePktLen", "validateSrcHost",
 			"respInvalidSrcIA", "respInvalidDstIA", "verifyCurrentMAC", "validateEgressID", "validateEgressUp",
 			"resolveInbound", "handleIngressRouterAlert", "handleEgressRouterAlert"}
